@@ -23,7 +23,8 @@ RULE = ("three fixed cases on every run: `tables` (the WHOLE tables: exchange_su
         "find_mut. thorough additionally enumerates every list of <= 3 subscriptions over a pool of 6 (valid and invalid, two keys, an unrouted kind) "
         "as one batch and split into two (343 cases). corpus/C13V/hand.ops (always run first): the inputs of the sub-check review — a later future failing "
         "behind one that went to the network (StreamBuilder and MultiStreamBuilder), the 30 / 31 futures boundary of try_join_all, asset numbers from 1000 on "
-        "(names order as strings). A case is distinct by the SHA-1 of its op lines and non-trivial when two of its ops produce "
+        "(names order as strings); corpus/C13V/domain.ops (input-domain audit): exchange ids outside the generators' pool of 19 inside batches, five batches in one init with one key in "
+        "several of them, expiry 0 / 1 ms, strikes 0 / 1, Okx under every instrument kind in one group next to Gateio futures / options. A case is distinct by the SHA-1 of its op lines and non-trivial when two of its ops produce "
         "different observations")
 ASSUMPTIONS = [
     "the network is outside the model: a connection init_market_stream would open is a value (exchange, kind, channel family, instruments). "
